@@ -178,7 +178,13 @@ pub fn check(c: &Case) -> Outcome {
         // a time event has exactly one root
         if let Ev::Time { c: root } = e.g.unscaled() {
             let on_grid = sol.t.iter().any(|t| t == root);
-            let wanted = e.dir == 0 || (e.dir as f64) * d > 0.0;
+            // a root placed at xend lies beyond the last step end when the solver lands an ulp short of xend (allowed):
+            // only roots strictly between x0 and the last accepted step end must be found
+            let inside = (*root - sol.t[0]) * d > 0.0 && (sol.t[m - 1] - *root) * d > 0.0;
+            let wanted = inside && (e.dir == 0 || (e.dir as f64) * d > 0.0);
+            if !inside && !on_grid {
+                continue;
+            }
             if !on_grid && wanted {
                 if te.len() != 1 {
                     return Outcome::viol(format!("{}: g = t - {:e} has one root strictly inside the span, not on a step end, but {} events were reported: {:?}", name, root, te.len(), te));
